@@ -32,7 +32,7 @@ func (m *pairModel) settled() bool {
 		}
 	}
 
-	return m.exch == 0 && m.side[0].gen == m.side[1].gen
+	return m.exch == 0 && m.side[0].gen == m.side[1].gen && len(m.unsignalled()) == 0
 }
 
 func (m *pairModel) all() []string {
@@ -40,6 +40,7 @@ func (m *pairModel) all() []string {
 		return nil // both selected and nothing in flight: the rest is keepalive traffic (C04)
 	}
 	evs := append(m.tickEvents(), m.netEvents()...)
+	evs = append(evs, m.unsignalled()...)
 	switch m.exch {
 	case 0:
 		if m.exchanges < m.cfg.Restarts {
@@ -65,6 +66,9 @@ func (m *pairModel) defaultEvent() string {
 		return "offer"
 	case 2:
 		return "answer"
+	}
+	if u := m.unsignalled(); len(u) > 0 {
+		return u[0]
 	}
 	if len(m.inflight) > 0 {
 		return fmt.Sprintf("deliver:%d", m.inflight[0].seq)
@@ -117,6 +121,12 @@ func (m *pairModel) Apply(ev string) {
 	}
 	kind, arg, _ := strings.Cut(ev, ":")
 	switch kind {
+	case "signal":
+		i, j := int(arg[0]-'0'), 0
+		fmt.Sscan(arg[2:], &j) //nolint:errcheck
+		m.signalOne(m.side[i], m.side[1-i], j)
+
+		return
 	case "restart":
 		m.restart(int(arg[0] - '0'))
 
@@ -186,7 +196,7 @@ func (pw *pairWorld) answerArrives() {
 func (m *pairModel) Key() (string, []int) {
 	spent := []int{m.side[0].ticks, m.side[1].ticks, m.drops, m.dups, m.devs, m.exchanges}
 
-	k := m.canon() + fmt.Sprintf(" gen=%d/%d exch=%d/%d", m.side[0].gen, m.side[1].gen, m.exch, m.exchInit*m.exch)
+	k := m.canon() + fmt.Sprintf(" gen=%d/%d exch=%d/%d sig=%v/%v", m.side[0].gen, m.side[1].gen, m.exch, m.exchInit*m.exch, m.side[0].sigDone, m.side[1].sigDone)
 	if m.cfg.Monitor {
 		k += " ledger=" + m.ledgers[0].summary() + "/" + m.ledgers[1].summary()
 	}
@@ -236,6 +246,9 @@ func (m *pairModel) Finish() []vtProblem {
 	if m.exch != 0 || m.side[0].gen != m.side[1].gen {
 		return nil // a half-done restart exchange is not a session the statement speaks about
 	}
+	// signalling eventually completes
+	m.signalAll(m.side[1], m.side[0])
+	m.signalAll(m.side[0], m.side[1])
 	rounds := m.cfg.FairMax
 	if rounds == 0 {
 		rounds = 4
@@ -319,6 +332,11 @@ func checkC01(c *runCtx) {
 		sp{"3x3 reachable, D<=1", pairCfg{KindsA: []string{"host", "host", "host"}, KindsB: []string{"host", "host", "host"}, Ticks: 3, Drops: 1, Dups: 1, Dev: 1}},
 		sp{"4x4 reachable, D<=1", pairCfg{KindsA: []string{"host", "host", "host", "host"}, KindsB: []string{"host", "host", "host", "host"}, Ticks: 3, Drops: 1, Dups: 1, Dev: 1}},
 	)
+	// trickle: each candidate reaches the peer as an event of its own (peer-reflexive candidates superseded by signalled ones)
+	specs = append(specs,
+		sp{"1x1 trickled candidates, full BFS, reordering only", pairCfg{KindsA: host1, KindsB: host1, Trickle: true, Ticks: 2}},
+		sp{"2x1 trickled candidates, D<=2", pairCfg{KindsA: host2, KindsB: host1, Trickle: true, Ticks: 3, Drops: 1, Dups: 1, Dev: 2}},
+	)
 	// restarted sessions: one offer/answer restart exchange started at any step by either side
 	specs = append(specs,
 		sp{"1x1 restart exchange at any step, D<=2", pairCfg{KindsA: host1, KindsB: host1, Ticks: 4, Drops: 1, Dups: 1, Dev: 2, Restarts: 1}},
@@ -331,6 +349,8 @@ func checkC01(c *runCtx) {
 			sp{"3x3 reachable, D<=2", pairCfg{KindsA: []string{"host", "host", "host"}, KindsB: []string{"host", "host", "host"}, Ticks: 3, Drops: 2, Dups: 2, Dev: 2}},
 			sp{"1x1 restart exchange at any step, D<=3", pairCfg{KindsA: host1, KindsB: host1, Ticks: 4, Drops: 2, Dups: 2, Dev: 3, Restarts: 1}},
 			sp{"2x1 restart exchange at any step, D<=2", pairCfg{KindsA: host2, KindsB: host1, Ticks: 4, Drops: 1, Dups: 1, Dev: 2, Restarts: 1}},
+			sp{"2x2 trickled candidates, D<=2", pairCfg{KindsA: host2, KindsB: host2, Trickle: true, Ticks: 3, Drops: 1, Dups: 1, Dev: 2}},
+			sp{"1x1 trickled candidates, full BFS with one drop and one dup", pairCfg{KindsA: host1, KindsB: host1, Trickle: true, Ticks: 2, Drops: 1, Dups: 1}},
 			sp{"1x1 two restart exchanges, D<=3", pairCfg{KindsA: host1, KindsB: host1, Ticks: 4, Drops: 1, Dups: 1, Dev: 3, Restarts: 2}},
 		)
 		// every 2x1 reachability matrix (16), D<=2
